@@ -257,6 +257,8 @@ def refreshOp (s : St) (rows : String) : St × String :=
   evrouted                                      oracle "every host the metadata refers to / a routed query is offered is an object of the ring"
   reset evq                                     a real eventDebouncer whose callback waits for the harness before it reads its frames
   evq <ev> | evqfire | evqrun <k>               debounce(frame) / the debounce timer expires (flush) / handler goroutine k reads its batch
+  evqstop | evqstoprace | evqfirestop           eventDebouncer.stop(): flusher idle / racing with a timer expiry (stop first) / called while the
+                                                flusher is committed to a flush (between `<-e.timer.C` and `e.mu.Lock()`)
   evqhandled                                    oracle "every handler that has run saw exactly the frames of its own flush"
   evdbserved                                    oracle "every request was followed by a refresh that started after it; every refreshNow() caller
                                                 was answered, and not by a refresh that had started before its call" (positions in the requests) -/
@@ -446,6 +448,13 @@ def step (s : St) (ws : List String) : St × String :=
     match s1.q.handled.getLast? with
     | none => (s1, "none " ++ queueState s1.q)
     | some b => (s1, "batch=" ++ join (b.2.map showEv) ++ " " ++ queueState s1.q)
+  | ["evqstop"] => let s1 := queueOp s .stop; (s1, "stopped " ++ queueState s1.q)
+  | ["evqstoprace"] =>
+    -- stop() and an expiry of the debounce timer race, stop synchronises with the flusher first: the expiry finds no flusher
+    let s1 := queueOp (queueOp s .stop) .fire; (s1, "stopped " ++ queueState s1.q)
+  | ["evqfirestop"] =>
+    -- the timer has expired and the flusher is committed to flushing when stop() is called: the flush happens, then the stop
+    let s1 := queueOp (queueOp s .fire) .stop; (s1, "stopped " ++ queueState s1.q)
   | ["evqhandled"] =>
     -- oracle: every handler that has run saw exactly the frames of its own flush (C16_event_batches_intact)
     (s, if s.q.intact s.qs then "ok" else
